@@ -313,7 +313,9 @@ def _pn_fields(facts, ctx):
     """(positive field, negative field) of PNCounter, defined by read() = read(pos) - read(neg)."""
     body = ctx.inherent(PNCOUNTER, 'read')
     r = drop_lv(interp(facts, body).ret)
-    if not (is_call(r, 'sub') and len(r[2]) == 2):
+    if r[0] == 'post' and r[2] == 0 and is_call(r[1], 'sub_assign') and len(r[1][2]) == 2:
+        r = ('call', r[1][1], r[1][2])      # `total -= x; total` is `total - x`
+    if not (is_call(r, ('sub', 'sub_assign')) and len(r[2]) == 2):
         return None, None, body, r
 
     def fld(x):
@@ -475,7 +477,9 @@ def cnt_route(ctx):
             if not good:
                 errs.append('self.%s is not paired with %s' % (fld, 'the argument clock' if name == 'reset_remove' else 'other.' + fld))
             elif name != 'validate_merge' and not rc.must_pass(good):
-                errs.append('a path skips self.%s' % fld)
+                noop = {'merge': {'other': (2, ())}, 'reset_remove': {'clock': (2, ()), 'self': (1, ())}}.get(name, {})
+                if not must_pass_unless_noop(facts, body, it, good, noop):
+                    errs.append('a path skips self.%s' % fld)
         ctx.check(not errs, name, body, 'componentwise over %s and %s' % (pos, neg), errs[0] if errs else '', props=props)
 
 
@@ -503,7 +507,10 @@ def gc_delegate(ctx):
                     if src is not None and lp is not None and whole_iteration_over(src, 2, ('inner',)) and not iter_source(src)[2] \
                             and not lp.early_exits() and lp.must(rc, [bb]):
                         good.append(lp.head)
-        ctx.check(bool(good) and rc.must_pass(good), name, body, 'inner.%s(%s)' % (name, 'other.inner' if want[1] else 'argument'),
+        # `if other.inner.is_empty() { return }` / `if clock.is_empty() || self.inner.is_empty() { return }`: skipping a no-op
+        noop = {'merge': {'other': (2, ())}, 'reset_remove': {'clock': (2, ()), 'self': (1, ())}}.get(name, {})
+        passes = bool(good) and (rc.must_pass(good) or must_pass_unless_noop(facts, body, it, good, noop))
+        ctx.check(passes, name, body, 'inner.%s(%s)' % (name, 'other.inner' if want[1] else 'argument'),
                   'GCounter::%s does not delegate to inner.%s with the right operand on every path' % (name, name), props=props)
 
 
